@@ -477,6 +477,21 @@ def batch_cases():
                 yield {"kind": "batch", "aim": "equal-distinct-through-filters", "history": hist, "probes": probes}
 
 
+POISON = ["<script>x", "<style>body{", "<!--", "<a b='", "</script", "<![CDATA[", "&#", "%(x)s %", "\ud800", "9" * 30, "<SCRIPT><script>", "\x00", "{{", "%zz", "Zm9", float("nan"), [None], {"k": []}, -(10**30)]
+BENIGN = ["a <b>c</b> d", "hello world", "1", 3, 1.5, [3, 1, 2], [{"k": 1}, {"k": 0}], "<script>x</script>y", "2024-03-01", "Zm9v", "a%20b"]
+
+
+def poison_batch_cases():
+    """Every filter first sees inputs that could leave something behind in shared state (unbalanced markup, stray escapes, values that make
+    it raise), then ordinary inputs: the ordinary results must be what a fresh process gives."""
+    for auto in (True, False):
+        e = {"autoescape": auto, "extra": True, "mode": "lax"}
+        for chunk in range(0, len(POISON), 5):
+            hist = [spec("{{ v | " + f + " }}", {"v": pv}, e) for f in F0 for pv in POISON[chunk:chunk + 5]]
+            probes = [spec("{{ v | " + f + " }}", {"v": bv}, e) for f in F0 for bv in BENIGN]
+            yield {"kind": "batch", "aim": "state-left-behind-by-hostile-input", "history": hist, "probes": probes}
+
+
 def gen_purity_case(rng) -> dict[str, Any]:
     if rng.random() < 0.3:
         f = rng.choice(["sort", "sort_natural", "reverse", "uniq", "compact", "map: 'k'", "concat: b", "sort: 'k'", "where: 'k'", "join: ','", "first", "last", "sum", "slice: 1, 2", "push: 9", "pop", "shift",
@@ -501,6 +516,7 @@ def cases(ctx: core.Ctx):
     rng = ctx.rng("cases")
     if ctx.shard == 0:
         yield from batch_cases()
+        yield from poison_batch_cases()
     if ctx.tier == "quick":
         # the forked-twin histories first: they are the slow part, and the time cap must not starve them
         for _ in range(ctx.budget(220, 220)):
